@@ -121,3 +121,8 @@ package bscript
 //@ func bscript.NewP2PKHFromAddress
 //@   bytes token
 //@   ensures[C15.p2pkh_from_address] (and (= (= err nil) (spec.addr_ok (b58dec addr))) (=> (= err nil) (and (not (nil? r0)) (= (bytes r0) (spec.p2pkh_script (bsub (b58dec addr) 1 21))))))
+//@ func bscript.NewAddressFromPublicKey
+//@   bytes token
+//@   fresh r0
+//@   requires (not (nil? pubKey))
+//@   ensures[C15.addr_from_key] (and (= err nil) (not (nil? r0)) (= (. r0 AddressString) (b58enc (spec.addr_payload (ite mainnet 0 111) (bhash160 (pkser pubKey))))) (= (. r0 PublicKeyHash) (bhex (bhash160 (pkser pubKey)))))
